@@ -679,9 +679,10 @@ GtModel genGroundTruthModel(Src &src, const GtOptions &opt)
             }
             c.value[0] = b.evalAt(w, sys.comp, 0);
             c.value[1] = b.evalAt(w, sys.comp, 1);
-            if (src.flip(60)) {
-                setInitial(cls, src.flip(50) ? "1" : "0.5"); // initial guess
-            }
+            // No initial guess is given to the unknowns: an initial value on an NLA unknown makes the library treat every
+            // initialised variable of the equation (the constants it reads) as an unknown as well, which is outside
+            // the generated domain (the roles would no longer be determined by the construction).
+            (void)setInitial;
             sys.unknowns.push_back(cls);
             W.push_back(w);
         }
